@@ -141,11 +141,17 @@ impl MaidChunk {
 
     /// Count tiles with ADT data
     pub fn count_existing_tiles(&self) -> usize {
-        self.sections[MaidSection::RootAdt.index()]
-            .iter()
-            .flat_map(|row| row.iter())
-            .filter(|&&id| id != 0)
-            .count()
+        // A MAID chunk read from a file may hold fewer sections than expected (even none)
+        self.sections
+            .get(MaidSection::RootAdt.index())
+            .map(|section| {
+                section
+                    .iter()
+                    .flat_map(|row| row.iter())
+                    .filter(|&&id| id != 0)
+                    .count()
+            })
+            .unwrap_or(0)
     }
 
     /// Get the number of sections in this MAID chunk
@@ -194,7 +200,8 @@ impl super::Chunk for MaidChunk {
         }
 
         let section_count = size / BYTES_PER_SECTION;
-        let mut sections = Vec::with_capacity(section_count);
+        // untrusted size: cap the pre-allocation, reading stops at end of stream
+        let mut sections = Vec::with_capacity(section_count.min(MaidSection::all().len()));
 
         for _section_idx in 0..section_count {
             let mut section = Vec::with_capacity(WDT_MAP_SIZE);
